@@ -4,7 +4,24 @@ EXTENDS Sync, Json
 Finished == s.th[0].pc = "finished"
 ExportInv == Finished => PrintT(<<"SCASE", ToJson([sched |-> hist.sched, lo |-> hist.lo, hi |-> hist.hi,
                                                      kind |-> Kind, scripts |-> Scripts, main |-> MainScript,
-                                                     wakers |-> SetToSortSeq(DOMAIN WakerBits, <), chanbit |-> ChanBit])>>)
+                                                     wakers |-> SetToSortSeq(DOMAIN WakerBits, <), chanbit |-> ChanBit,
+                                                     hprog |-> [w \in DOMAIN HProg |-> HProg[w]]])>>)
+
+\* --- handler programs (run by wake handlers on the main thread, inside poll_wake)
+NoHProg == << >>
+HP(w, wk, fin) == (w :> [wake |-> wk, final |-> fin])
+\* the final call of waker 1 drops waker 2 (which no thread touches): its own final call must still come
+HP_findrop == HP(1, << >>, <<<<"drop", 2>>>>)
+\* waker 2 is woken by the main thread only; its handler closes it
+HP_selfdrop == HP(2, <<<<"drop", 2>>>>, << >>)
+\* the handler of waker 1 wakes waker 2 from inside poll_wake
+HP_hwake == HP(1, <<<<"wake", 2>>>>, << >>)
+\* the handler of waker 1 (woken once, never dropped) calls poll_wake re-entrantly
+HP_nested == HP(1, <<<<"poll">>>>, << >>)
+S_h1 == (1 :> <<<<"wake", 1>>, <<"drop", 1>>>>) @@ (2 :> <<<<"wake", 65>>>>)
+S_h2 == (1 :> <<<<"wake", 1>>>>) @@ (2 :> <<<<"wake", 65>>>>)
+S_h3 == (1 :> <<<<"wake", 1>>>>) @@ (2 :> <<<<"wake", 2>>>>) @@ (3 :> <<<<"wake", 65>>>>)
+M_h2 == <<<<"wake", 2>>, <<"poll">>, <<"poll">>>>
 
 \* --- waker configurations
 WB_same == (1 :> 1) @@ (2 :> 2)                \* two wakers in the same leaf word
